@@ -9,6 +9,7 @@ import tempfile
 import threading
 import time
 
+from xonsh._verif import sched_point
 from xonsh.built_ins import XSH
 
 try:
@@ -349,8 +350,10 @@ class JsonHistoryFlusher(threading.Thread):
             self.start()
 
     def run(self):
+        sched_point("history.json.JsonHistoryFlusher.run")
         with self.cond:
             self.cond.wait_for(self.i_am_at_the_front)
+            sched_point("history.json.JsonHistoryFlusher.before_dump")
             self.dump()
             self.queue.popleft()
             self.cond.notify_all()
